@@ -132,6 +132,16 @@ func (c *genCfg) inputs(emit func(string)) {
 		} else {
 			exhaustive("", coreAlpha, 6, emit)
 		}
+		for _, k := range runLengths { // runs of escapes / delimiters before a delimiter
+			for _, d := range []string{"'", "\"", "`"} {
+				bs := strings.Repeat("\\", k)
+				dd := strings.Repeat(d, k)
+				for _, t := range []string{d + bs + d + "x" + d + "1", bs + d + "x" + d, "a" + bs + d + "x" + d + "1", d + "a" + bs + d + "b" + d,
+					d + dd + "x" + d, dd + "x", "a" + dd + "x" + d, d + bs + dd + "x" + d, bs, dd} {
+					emit(t)
+				}
+			}
+		}
 		for i, k := 0, n(50000, 1000000); i < k; i++ {
 			m := 1 + rng.Intn(24)
 			b := make([]byte, m)
